@@ -142,6 +142,18 @@ impl Connection {
         }
     }
     
+    /// Has the peer closed the connection? Looks at the socket without consuming anything, so it
+    /// can be asked about a connection whose input must not be read yet (a blocked client).
+    pub fn peer_closed(&self) -> bool {
+        let mut probe = [0u8; 1];
+        match self.stream.peek(&mut probe) {
+            Ok(0) => true,
+            Ok(_) => false,
+            Err(e) if e.kind() == ErrorKind::WouldBlock => false,
+            Err(_) => true,
+        }
+    }
+    
     /// Try to parse a frame from the read buffer
     pub fn parse_frame(&mut self) -> Result<Option<RespFrame>> {
         self.parser.parse()
